@@ -53,4 +53,60 @@ example : tokenize ⟨true, ['[', ']'], true, ['"']⟩
     = .tree [.leaf (toCps ['[', 'a', ']', ' ', '|']), .leaf (toCps ['"', '\\', 'é', '好'])] :=
   quote_roundtrip _ (by decide) (by decide) _
 
+/-- **Unquoted brackets produce exactly the corresponding nesting.**  With nesting enabled and any
+valid bracket pair `l r`, every tree of commands — leaves written in double quotes, sub-commands
+between `l` and `r`, items separated by one blank — tokenises to exactly that tree (any depth,
+any fan-out, any leaf text, pipe syntax on or off). -/
+theorem nesting_exact (c : Conf) (hv : c.Valid) (hn : c.nested = true) (hq : '"' ∈ c.quotes)
+    (l r : Char) (hb : c.brackets = [l, r]) (ts : List STree) :
+    tokenize c (joinChar ' ' (ts.map (render l r))) = .tree (toTrees ts) := by
+  have hb' : BracketOk Gen.shlexWhitespace Gen.validQuoteChars [l, r] := hb ▸ tables_ok.1 _ hv.1
+  have he : effBrackets c = [l, r] := by simp [effBrackets, hn, hb]
+  unfold tokenize
+  obtain ⟨T, hT, -⟩ := mkTokenizer_ok hb' (effPipe c) c.quotes
+  have hbr := brTok_of_mk tables_ok hb' hv.2 hT hq
+  rw [he, hT, ← renderList_eq_join]
+  simp only [tokenizeT_render hbr ts]
+
+/-- non-vacuity: `[[] "a" ["b ]" []]] "c"` under the default configuration -/
+example : tokenize ⟨true, ['[', ']'], false, ['"']⟩
+      (joinChar ' ' ([STree.node [.node [], .leaf ['a'], .node [.leaf ['b', ' ', ']'], .node []]], .leaf ['c']].map (render '[' ']')))
+    = .tree (toTrees [STree.node [.node [], .leaf ['a'], .node [.leaf ['b', ' ', ']'], .node []]], .leaf ['c']]) :=
+  nesting_exact _ (by decide) rfl (by decide) '[' ']' rfl _
+
+/-- **With nesting disabled brackets are literal text**: when `supybot.commands.nested` is off, or
+the channel's bracket string is empty and pipes are off, the result of tokenising *any* string has
+no sub-list — every item is a plain token. -/
+theorem nesting_disabled_flat (c : Conf) (hoff : c.nested = false ∨ (c.brackets = [] ∧ c.pipeSyntax = false))
+    (s : Str) (ts : List Tree) (h : tokenize c s = .tree ts) : ∀ t ∈ ts, t.isLeaf := by
+  have he : effBrackets c = [] := by
+    rcases hoff with h | ⟨h, _⟩ <;> simp [effBrackets, h]
+  have hp : effPipe c = false := by
+    rcases hoff with h | ⟨_, h⟩ <;> simp [effPipe, h]
+  unfold tokenize at h
+  rw [he, hp] at h
+  simp only [mkTokenizer] at h
+  generalize hT : (⟨Gen.tokenizerSeparators ++ c.quotes, [], [], false, c.quotes⟩ : TokCfg) = T at h
+  have hl : T.left = [] := by rw [← hT]
+  have hr : T.right = [] := by rw [← hT]
+  have hpp : T.pipe = false := by rw [← hT]
+  cases hr' : tokenizeT T s with
+  | ok ts' =>
+    simp only [Bool.false_eq_true, if_false, hT, hr'] at h
+    cases h
+    unfold tokenizeT at hr'
+    cases ht : topLoop T (fuelFor s) (initLexer s) [] [] with
+    | ok p =>
+      obtain ⟨a, e⟩ := p
+      rw [ht] at hr'
+      obtain ⟨ha, rfl⟩ := topLoop_flat T hl hr hpp _ _ [] a e (by simp) ht
+      simp [PR.bind, assemble] at hr'
+      exact hr' ▸ ha
+    | _ => simp [ht, PR.bind] at hr'
+  | _ => simp [Bool.false_eq_true, if_false, hT, hr'] at h
+
+/-- non-vacuity: `[a] <b>` with nesting off is two plain tokens -/
+example : ∃ ts, tokenize ⟨false, ['[', ']'], true, ['"']⟩ ['[', 'a', ']', ' ', '|'] = .tree ts ∧ ts.length = 2 :=
+  ⟨_, rfl, rfl⟩
+
 end C13
